@@ -213,15 +213,19 @@ def raises(ctx):
                 return 'zip(..., strict=True) (ValueError when the sequences differ in length)'
             if d == 'delattr' and len(node.args) == 2:
                 return 'delattr() of an attribute that may be absent (AttributeError)'
+            if d in ('int', 'float') and len(node.args) == 1 and in_action[0] and not isinstance(node.args[0], ast.Constant):
+                return '%s() of token text in a grammar / lexer action (ValueError: e.g. more digits than the interpreter converts)' % d
         if isinstance(node, ast.Subscript) and isinstance(node.ctx, ast.Load) and isinstance(node.slice, ast.Constant) and isinstance(node.slice.value, int) and \
                 isinstance(node.value, ast.Call) and isinstance(node.value.func, ast.Attribute) and node.value.func.attr in ('split', 'rsplit', 'splitlines') and \
                 (not node.value.args or (isinstance(node.value.args[0], ast.Constant) and node.value.args[0].value is None)):
             return 'an element of str.split() without separator (IndexError: the list is empty for blank text)'
         return None
     n_impl = 0
+    in_action = [False]
     for q in sorted(reach):
         if not q.startswith('xtuml.'):
             continue
+        in_action[0] = q.split('.')[-1].startswith(('p_', 't_'))
         for node in walk_local(cg.funcs[q]):
             n_impl += 1 if isinstance(node, ast.Call) and dotted(node.func) == 'zip' else 0
             what = implicit(node)
@@ -273,6 +277,10 @@ def raises(ctx):
         for node in ast.walk(cg.funcs[q]):
             if isinstance(node, ast.Raise) and isinstance(node.exc, ast.Call) and node.exc.args:
                 a0 = node.exc.args[0]
+                if isinstance(a0, ast.BinOp) and isinstance(a0.op, ast.Mod) and not (isinstance(a0.left, ast.Constant) and isinstance(a0.left.value, str)):
+                    r.violation('%s: the format string of the message (`%s`) is not a literal: text taken from the input becomes part of the '
+                                'format, so a `%%` in a value makes building the documented exception raise TypeError / ValueError' % (q, src(a0.left)[:60]),
+                                node, construct=q, key='msg-format-not-literal')
                 if isinstance(a0, ast.BinOp) and isinstance(a0.op, ast.Mod) and isinstance(a0.left, ast.Constant) and isinstance(a0.left.value, str):
                     import re as _re
                     convs = _re.findall(r'%[-0-9.]*([sdrfi%])', a0.left.value)
